@@ -7,49 +7,49 @@ V = os.path.dirname(os.path.dirname(os.path.abspath(__file__)))
 CLAIMED = {
  "C01": ("other",
   "The property as a whole (output equality over an unbounded family of programs) is not statically decidable here; eleven mechanism clauses that are necessary conditions of it are decided: scope push/pop pairing by node kind in cfg, fresh slot allocation by every closure generated for ':=', the three per-iteration loop-variable generators and their unconditional installation, completeness of the AST copier used for generics against the AST builder, operator/generator agreement (shared with C02), evaluation of all sources of a multiple assignment and of all operands of a multi-value return before any destination is written, the result of an expression stored on every path of its run-time closure (no stale slot), byte offsets for both forms of range over a string, no store through the slot index of a blank range value, and the 'i := i' loop-variable shortcut testing its source operand. CFG wiring, frame-index computation, most skip-assign optimisations and value semantics - the main content of the property - are NOT decided.",
-  "Defects D14, D23 (return generator), D28-D32 were found through R01.6-R01.11 and repaired ('fix:' commits).",
+  "Defects D14, D23 (return generator), D28-D32 were found through R01.6-R01.11 and repaired ('fix:' commits). Fifth round: also decided - every closure of the loop-variable generators allocates (no escape-analysis variant), a redeclared loop variable is a new variable for every variable of the clause, branching variants store on every path, the allocation of := is decided by the statement alone, continue goes through the copy-back node, every expression of a case list is wired, an empty switch evaluates its header, the hidden slot of every array range form, and the in-place shortcuts exclude definitions. Defects D67-D73 found and repaired.",
   "sibling/pairing lints over the typed syntax tree (custom go/types analyzer)", "DESIGN.md §2 C01"),
  "C04": ("other",
   "Structural necessary conditions of the copying half of 'copied or shared exactly as Go prescribes': the places where the interpreter must detach a value do so on every path - temporaries of a multiple assignment and of a multi-value return, fresh slots for the arguments and receivers of every activation, per-evaluation allocation of composite values (no run-time closure writes or reflect-sets a value captured from its generator), the detached copy a range statement iterates over, no frame slot rebound to the plain result of a value generator, a clone of the frame for every closure value, and an expression's result stored on every path (a missed map lookup yields the zero value). What a reflect.Value aliases at run time (Index/Field views), and append/copy/slicing (delegated to reflect), are NOT decided: the property's quantifier over operation histories is not reached by this check.",
-  "Most clauses are the same analyses as clauses of C01/C05/C08/C11, reported under R04.x; R04.5 (range shadow copy) and R04.8 (slot never bound to a generator result) are specific. Frozen exceptions: the result slots of an interpreted call, the hidden slots of range statements.",
+  "Most clauses are the same analyses as clauses of C01/C05/C08/C11, reported under R04.x; R04.5 (range shadow copy) and R04.8 (slot never bound to a generator result) are specific. Frozen exceptions: the result slots of an interpreted call, the hidden slots of range statements. Fifth round: the exception for the result slots of an interpreted call is REMOVED (it froze defect D74, now repaired); R04.14 decides f(s...) in both directions.",
   "def-use/ownership lints over run-time closures (captured-write rule, slot-binding rule) + go/cfg path rules", "DESIGN.md section 2 C04"),
  "C07": ("other",
   "Structural necessary conditions of the two call bridges: every variant of the compiled-call generator builds a fresh argument vector inside the run-time closure and fills it completely, in order, through the one wrapping helper; the reflect.MakeFunc bridge of an interpreted function stores every incoming argument, runs the body and returns exactly the result slots; activation frames get fresh slots; results of a compiled call in a return statement go to the allotted slot; Use never aliases the caller's Exports map; the wrapper for an interpreted value handed to compiled code is chosen on its full method set. Whether a particular value survives reflection across the boundary (interfaces, func-typed values, zero values, variadic packing) is NOT decided.",
-  "Sibling agreement of the six callBin variants is the specific clause; the others are shared analyses of C02/C05/C13.",
+  "Sibling agreement of the six callBin variants is the specific clause; the others are shared analyses of C02/C05/C13. Fifth round: R07.15 (= R05.8), R07.16 (slots addressed at their frame level), R07.17 (Globals hands out the live variables).",
   "sibling cross-check of the call-bridge variants + shared ownership lints (custom go/types analyzer)", "DESIGN.md section 2 C07"),
  "C05": ("other",
   "One table-agreement clause of 'interpreted values handed to compiled code have their interpreted methods invoked': every key of stdlib.MapTypes denotes the function value actually bound (default binding, or fixStdlib override re-keyed from it), every re-keying reads an existing key, and every bound ...interface{} function of a keyed package is keyed; plus two structural clauses of 'sees the same receiver state' and of method-set shadowing: the slots of every frame created for an activation are bound only to fresh storage (receivers and arguments are copied in), and in the method-set computation a type's own methods take precedence over promoted ones. Method resolution, dynamic dispatch, type assertions and type switches depend on run-time valueInterface contents and are NOT decided (four seeded changes of that kind are not detected).",
-  "Defects K6/D13 (log.Fatal*, log.Print*, fmt.Sscan*/Fscan*/Append* not wrapped) were found by this rule and repaired.",
+  "Defects K6/D13 (log.Fatal*, log.Print*, fmt.Sscan*/Fscan*/Append* not wrapped) were found by this rule and repaired. Fifth round: R05.8 (the reflect Implements shortcut of the interface wrapper is never taken for structs) and R05.9 (the nil-interface failure of a type assertion is decided on validity only).",
   "table agreement between stdlib.MapTypes, the default bindings and fixStdlib (custom go/types analyzer)", "DESIGN.md §2 C05"),
  "C18": ("other",
   "Structure of the extract generator only: exhaustive object classification keyed by scope name, guards placed per object kind, shape of the embedded template (parsed with text/template/parse), exact printing of constants per kind, unconditional import marking by the type qualifier, the '...' suffix of forwarded variadic arguments written last, restricted names declared. Whether the emitted text compiles and binds faithfully is a property of strings produced at run time and is NOT decided (what the committed outputs say is decided by C14). Weakest claim of the set.",
-  "Trusted: text/template/parse.",
+  "Trusted: text/template/parse. Fifth round: R18.7 (Extractor keeps no state), R18.8 (build-tag separators agree with the constraint line), R18.9 (no big.Int of a constant mutated).",
   "structural lint of the generator and static parse of its embedded template", "DESIGN.md §2 C18"),
  "C19": ("other",
   "Structural clauses of debugger transparency: the debugger hooks and session API store only into debugger-owned state (SSA store targets, with interprocedural resolution of local maps), the plain and debugger execution loops are siblings, the breakpoint test dominates every mode-dependent 'keep running' return, the terminate event is deferred before execution, the breakpoint placement walk never prunes, the cancellable channel-operation variants (the ones a debugged program runs) store reflect's ok, and the two kinds of breakpoint flags are written only in their own section of SetBreakpoints. Equality of outputs under arbitrary stepping sequences and event ordering are NOT decided.",
-  "One frozen exception: SetBreakpoints forces lazy generation of exec closures through setExec (idempotent).",
+  "One frozen exception: SetBreakpoints forces lazy generation of exec closures through setExec (idempotent). Fifth round: R19.9 (debugger detached at the end of the session), R19.10 (= R06.10 over the debugger's functions), R19.7 reports merged flags.",
   "non-interference by store-target classification on SSA + go/cfg dominance", "DESIGN.md §2 C19"),
 
  "C02": ("other",
   "Table/shape agreement over every operator closure (425 run-time closures, 34 operator generators, 15 constant folders): operator token -> action -> generator -> Go operator, kind class <-> accessor/extractor/setter in every kind case (with the effective kind set of predicate-ordered cases), operand order, branch polarity, constant operands materialised through the accessor of their kind, completeness of the numeric class in every kind case (uintptr), and the two 'store directly' optimisations of cfg guarded so that an operand never overwrites a slot another operand still reads (compound assignment, multi-value return with named results). Because the arithmetic is done by Go's own operator on the 64-bit widening and reflect setters truncate, wrap-around/truncation/sign extension/rounding follow once these facts hold; nothing is evaluated. Not decided: the operator type rules of typecheck.go, reflect.Value.Convert, string conversions, rewrites of the operator tree done by cfg (e.g. folding !(a<b)), result-slot allocation.",
-  "Trusted: Go's operators, reflect accessors/setters. Defects D22 (++/-- on uintptr) and D23 (multi-value return with named results) were found by R02.3/R02.8 and repaired. A seeded change rewriting !(a<b) into a>=b in cfg (NaN) is NOT detected (documented in DESIGN.md).",
+  "Trusted: Go's operators, reflect accessors/setters. Defects D22 (++/-- on uintptr) and D23 (multi-value return with named results) were found by R02.3/R02.8 and repaired. A seeded change rewriting !(a<b) into a>=b in cfg (NaN) is NOT detected (documented in DESIGN.md). Fifth round: a float is never narrowed through the other integer class anywhere in the package (type-resolved conversion chains), and only the assigned expression itself takes the destination's slot (R02.11 chain, R02.12).",
   "exhaustiveness + sibling table agreement over syntax trees resolved with go/types (custom lint)", "DESIGN.md §2 C02"),
  "C03": ("other",
   "Structural clauses of constant handling: folder tokens agree with their action; go/constant accessors agree with the reflect kind of their case and both parts of complex constants are examined; the integer width table equals 8*sizeof per kind and is complete; signed kinds are bounded with width-1 bits and cannot reach the unsigned full-width comparison; iota bookkeeping pairing at both sites; literals are materialised by go/constant's own parser (rune literals by UnquoteChar, never through a string); shared type objects are never overwritten in place. Arbitrary-precision results, default types and rounding are go/constant's and are trusted; 'rejected instead of evaluated' is decided only through the representability clauses.",
-  "Defects D2 (signed bound) and D17 (int width on 32-bit hosts) were found by R03.4/R03.3 and repaired. Width table checked for the host configuration (quick) and GOARCH=386 (thorough).",
+  "Defects D2 (signed bound) and D17 (int width on 32-bit hosts) were found by R03.4/R03.3 and repaired. Width table checked for the host configuration (quick) and GOARCH=386 (thorough). Fifth round: completeness of compile-time folding (R03.12: D56, D58), an exact-result check before every folder invocation (R03.13: D57), exactness flags consumed when a constant is materialised (R03.14), rounding accessors under the kinds of their width (R03.8 width).",
   "table agreement + go/cfg reachability + sibling cross-check (custom go/types lint)", "DESIGN.md §2 C03"),
 
  "C06": ("other",
   "Structural clauses of panic/defer/recover handling decided on the call graph, go/cfg and SSA of package interp: every path from an exported entry point (and from each goroutine it starts) to the execution loop passes a converting, non-re-panicking recover; defer records are prepended one at a time and consumed once in order; recorded argument values are copies made when the defer statement executes; the unwinding function recovers, runs the records, then re-panics conditionally; recover() reads and clears the caller frame's panic value; converting recovers return Panic{Value: recovered}; each deferred record is invoked under its own recover; the generator of recover stores its result on every path. Necessary conditions only: which faults reflect raises, and recover's 'called directly' rule at run time, are not decided.",
-  "Trusted: go/ssa, go/cfg, reflect raising ordinary panics. Dynamic calls through fields/slices are not followed (the execution loop is the sink). Defects D3, D6, D16 and D28 were found by these rules and repaired ('fix:' commits).",
+  "Trusted: go/ssa, go/cfg, reflect raising ordinary panics. Dynamic calls through fields/slices are not followed (the execution loop is the sink). Defects D3, D6, D16 and D28 were found by these rules and repaired ('fix:' commits). Fifth round: R06.15 - the compile passes are reached only through a converting recover (D75: seven ill-typed inputs crashed the host); R06.7 order clause, R06.13 substitute clause.",
   "static call-graph must-pass-through (converting recover) + go/cfg dominance + AST shape rules on defer records", "DESIGN.md §2 C06"),
  "C08": ("other",
   "Structural clauses of race freedom of the interpreter's own bookkeeping, over every run-time closure of package interp (lexical ownership rule with alias tracking; SSA provenance of the frame given to each activation and of goroutine argument vectors; freshness of every slot of a frame created for an activation; lock pairing on every go/cfg path, no entry into interpreted code under a frame lock, and a guarded-by table for frame.done / Interpreter.done; the binary-package table never aliasing the caller's map). No schedule is explored; data-race freedom in general is not decided.",
-  "Trusted: go/types, go/ssa, go/cfg. Effects of callees are not followed. Defects D1, D5 and D15 were found by these rules and repaired ('fix:' commits).",
+  "Trusted: go/types, go/ssa, go/cfg. Effects of callees are not followed. Defects D1, D5 and D15 were found by these rules and repaired ('fix:' commits). Fifth round: R08.7 (= R07.7), R08.8 (select chooses through reflect.Select only).",
   "ownership/effect lint over closures (captured-write rule) + SSA value provenance + lock-pairing on go/cfg", "DESIGN.md §2 C08"),
  "C09": ("other",
   "Structural necessary conditions of cancellation: run-id gate in every execution loop, id/done inheritance in every frame constructor and newFrame call, every blocking channel operation either disabled under cancellable mode or racing the frame's done case and stopping when it fires, the three context watchers, stop() and run(). Promptness and blocking host functions are not decided.",
-  "Trusted: reflect.Select/TryRecv/TrySend semantics, go/ssa. Known finding K11 (mode chosen at closure-generation time) is printed as KNOWN-FINDING.",
+  "Trusted: reflect.Select/TryRecv/TrySend semantics, go/ssa. Known finding K11 (mode chosen at closure-generation time) is printed as KNOWN-FINDING. Fifth round: R09.4 also requires that nothing is evaluated outside the watcher.",
   "SSA value provenance + AST/three-valued condition evaluation + sibling cross-check of the watchers", "DESIGN.md §2 C09"),
  "C10": ("other",
   "Two clauses about run ids surviving a cancellation: the root frame id is refreshed before every run in Execute (go/cfg dominance) and callbacks handed to reflect.MakeFunc must not gate on a run id captured at creation (SSA provenance). Nothing else about post-cancellation state is decided.",
@@ -58,34 +58,34 @@ CLAIMED = {
 
  "C11": ("other",
   "Persistence clauses behind 'piecewise equals whole': the persistent tables of the interpreter are allocated once by the constructor (SSA store sites), the global frame grows in place (copy of the old vector, only the new tail initialised), package scopes are created only when absent, every evaluation/compilation entry point goes through the one pipeline, every closure value captures a clone of its defining frame (also the global frame), every (re)definition in the global pass gets a symbol and a slot of its own, the variables of a multiple-value define are not flagged global (which would defeat their redeclaration), the ordering of package variables waits only for variables of the current evaluation, and the source name recorded by EvalPath is never reset by an anonymous Eval. Equality of output and global state across arbitrary cuts of a program is NOT decided.",
-  "Defects D25 and D26b were found by R11.7/R11.9 and repaired; D26b was a regression of an earlier repair, exposed by running the seeded demonstrations on the repaired tree (DESIGN.md section 7).",
+  "Defects D25 and D26b were found by R11.7/R11.9 and repaired; D26b was a regression of an earlier repair, exposed by running the seeded demonstrations on the repaired tree (DESIGN.md section 7). Fifth round: R11.12 (main started only by the unit declaring it; D59).",
   "who-may-write analysis on SSA store sites + call-graph reachability + SSA value provenance", "DESIGN.md §2 C11"),
  "C15": ("other",
   "Structural clauses of initialisation order: root code, then the global-variable node, then the forward loop over the start list, on every go/cfg path of Execute and importSrc; main appended after every init contribution; the per-file pass contributes only init functions by appending; import-once test dominating everything in importSrc; the dependency collector follows function symbols and methods and ignores identifiers only where they cannot refer to a variable; the selection restarts from the earliest pending variable after each selection; every variable symbol created by the global pass records its declaration; unresolved right-hand sides are retried instead of rejected. That the collected dependency sets are complete for every expression form is NOT decided.",
-  "Defects D12, D24, D26, D27 and D33 were found by R15.4-R15.8 and repaired ('fix:' commits).",
+  "Defects D12, D24, D26, D27 and D33 were found by R15.4-R15.8 and repaired ('fix:' commits). Fifth round: R15.13 (blank identifier, struct-literal field names, function literals; D60-D62), R15.2 excludes methods named init.",
   "go/cfg dominance over resolved call sites + sibling cross-check of Execute/importSrc", "DESIGN.md §2 C15"),
  "C16": ("other",
   "Structural clauses of source-import resolution inside importSrc/pkgDir: import-once test first, cycle test before cycle mark before any loading or recursing call, relative imports built from the importing file's directory, vendor candidate examined before the GOPATH candidate and the search continued from previousRoot on the interpreter's filesystem, the in-progress table tested and marked under the same key, in previousRoot the upward search for the closest vendor directory before any other answer, every file access under importSrc going through io/fs on Options' filesystem. The path arithmetic of effectivePkg/previousRoot (string values) is NOT decided: three seeded changes of that kind are not detected.",
-  "Trusted: go/cfg dominance. See DESIGN.md for the undetected seeded changes.",
+  "Trusted: go/cfg dominance. See DESIGN.md for the undetected seeded changes. Fifth round: R16.6 (root handed to the imports of a relatively imported package), R16.7 (import-once identity: known finding K14).",
   "go/cfg dominance/ordering rules + who-may-call rule for file-system access", "DESIGN.md §2 C16"),
 
  "C12": ("other",
   "Structural clauses of 'rejected before anything runs': Execute dominated by the nil branch of the compile error (SSA dominance); importSrc never returns from execution to compilation; nothing reachable from CompileAST reaches the execution functions (static call graph); error discipline of the compile passes (no implicit discard, explicit discards only from a reviewed table, no error definition overwritten by a possibly-nil one before being read or while known to be non-nil: branch-sensitive reaching definitions on go/cfg over every error variable of every compile-pass function); every typecheck method reachable from the cfg pass. The predicates inside the type rules are NOT decided: a loosened assignableTo/convertibleTo is invisible to this check, and 'the well-typed program is never rejected' is not decided.",
-  "Known finding K1 (imported source packages are initialised while the importer is still compiled) printed as KNOWN-FINDING. Six overwrite sites are frozen exceptions with their reason in the checker (c12Overwrites).",
+  "Known finding K1 (imported source packages are initialised while the importer is still compiled) printed as KNOWN-FINDING. Six overwrite sites are frozen exceptions with their reason in the checker (c12Overwrites). Fifth round: R12.12 (= R03.4/R03.8), R12.13 (three-valued evaluation of convertibleTo under pointer/uintptr kind scenarios), R12.14 (= R06.15: a fault of a compile pass is an error, not a host panic; D75).",
   "call-graph reachability + SSA dominance + reaching-definitions dataflow on go/cfg (error discipline lint)", "DESIGN.md §2 C12"),
 
  "C13": ("other",
   "Table and effect rules of restricted mode: forbidden packages absent from the default table (keys, values, imports) and writers of the binary-package table; every extract.restricted replacement declared, bound under the name it replaces, call-compatible, opaque, and with no static call path to a process exit; no default binding returning the real *log.Logger; every os environment function (slot-filled from the os package's SSA) overridden in the restricted branch by a closure over the interpreter's env map only; every fmt/log/flag function using the host's streams, std logger or CommandLine (slot-filled by SSA of the installed library) overridden per interpreter; os.Args and the print builtins; the binary-package table never aliasing the caller's map. Liveness of the host in general (other ways for a bound function to exit), fd 0/1/2 I/O and sequences of environment operations are not decided.",
-  "Reference = SSA of os/log/fmt/flag of the installed toolchain; static callees only. Known findings K4 (log.Default, slog.NewLogLogger, syslog.NewLogger hand out the real logger) and K5 (31 flag functions use the host's CommandLine) are printed as KNOWN-FINDING.",
+  "Reference = SSA of os/log/fmt/flag of the installed toolchain; static callees only. Known findings K4 (log.Default, slog.NewLogLogger, syslog.NewLogger hand out the real logger) and K5 (31 flag functions use the host's CommandLine) are printed as KNOWN-FINDING. Fifth round: Options.Env entries cut at the first '=', R13.8 (a failed import always ends in an error).",
   "table/who-may-write lint + effect rules slot-filled from the SSA of the reference library (custom go/ssa analyzer)", "DESIGN.md §2 C13"),
  "C14": ("translation_validation",
   "Complete validation of the committed output of the extract translator against its input: every one of the ~16 000 (quick: host platform, both releases) / ~187 000 (thorough: all 47 GOOS/GOARCH of syscall, both releases) binding entries is checked to denote its namesake in one of the generated forms, untyped constants are compared exactly with go/constant, the bound name sets are compared with the library's exported non-generic objects per release (GOROOT/api deltas), table keys / duplicates / build-constraint headers are checked, and every interface wrapper is checked field-by-field and method-by-method (signature identity, forwarding call shape). The space is finite and enumerated completely.",
-  "Trusted: go/types, go/constant, GOROOT/api of the installed toolchain; Go 1 compatibility for go1.21/go1.22 symbols judged against the 1.23.5 library. Defects D9, D10 and D18 (formerly known finding K10) were found by this check and repaired; no known finding remains for C14. Completeness of syscall on platforms GOROOT/api does not describe is not decided (stated per platform in the evidence).",
+  "Trusted: go/types, go/constant, GOROOT/api of the installed toolchain; Go 1 compatibility for go1.21/go1.22 symbols judged against the 1.23.5 library. Defects D9, D10 and D18 (formerly known finding K10) were found by this check and repaired; no known finding remains for C14. Completeness of syscall on platforms GOROOT/api does not describe is not decided (stated per platform in the evidence). Fifth round: R14.8 - host constants re-bound by fixStdlib denote the name they are stored under.",
   "translation validation of generated tables against go/types + go/constant + GOROOT/api (custom analyzer)", "DESIGN.md §2 C14"),
 
  "C17": ("other",
   "Static agreement of yaegi's file-selection code with the go/build reference sources: OS/arch table key sets, the tag conditions of matchTag, //go:build support, gating of read/parse by the verdict on every go/cfg path, orientation of the release comparison, complete iteration of the three levels of a constraint and of the yaegi:tags list, and the keep verdicts of the file-name rule (the last name element decided against both tables on every path, _test suffix removed first). Necessary structural conditions of the property; the boolean evaluation of arbitrary constraint lines is not decided.",
-  "Trusted: go/types, go/cfg, GOROOT/src/go/build of the installed toolchain as the reference. Defects D4, D20 and D21 were found by R17.1/R17.7 and repaired. Known findings K8/K9 (unix and implied-OS tags, //go:build lines) are printed as KNOWN-FINDING.",
+  "Trusted: go/types, go/cfg, GOROOT/src/go/build of the installed toolchain as the reference. Defects D4, D20 and D21 were found by R17.1/R17.7 and repaired. Known findings K8/K9 (unix and implied-OS tags, //go:build lines) are printed as KNOWN-FINDING. Fifth round: R17.10 (string indexes dominated by a length test; D63), R17.11-R17.13 (D64-D66), R17.6 group loop.",
   "table agreement with go/build + go/cfg reachability/dominance (custom go/types analyzer)", "DESIGN.md §2 C17"),
 }
 
